@@ -345,29 +345,36 @@ theorem mem_sortT (y : Trace) (l : List Trace) : y ∈ sortT l ↔ y ∈ l := by
   | nil => simp [sortT]
   | cons x t ih => simp [sortT, mem_insT, ih]
 
+theorem decideWhere_pres (s : St) (now : Int) (ex : Trace → Bool) :
+    Pres keep s (decideWhere keep s now ex) ∧ frame (decideWhere keep s now ex) = frame s := by
+  unfold decideWhere
+  obtain ⟨sw1, sw2, f, _⟩ := decideTraces_sw keep
+    { s with now := now, buf := s.buf.filter (fun t => !ex t) } (sortT (s.buf.filter ex))
+  refine ⟨⟨?_, ?_⟩, f⟩
+  · intro x h
+    unfold Somewhere at h
+    rcases h with h | h | ⟨t, ht, hx⟩ | h
+    · exact sw1 x (Or.inl h)
+    · exact sw1 x (Or.inr (Or.inl h))
+    · by_cases he : ex t = true
+      · exact sw2 t ((mem_sortT _ _).mpr (List.mem_filter.mpr ⟨ht, he⟩)) x hx
+      · exact sw1 x (Or.inr (Or.inr (Or.inl ⟨t, List.mem_filter.mpr ⟨ht, by simpa using he⟩, hx⟩)))
+    · exact sw1 x (Or.inr (Or.inr (Or.inr h)))
+  · intro g
+    apply decideTraces_good
+    · intro t ht
+      exact g.buf t (List.mem_filter.mp ((mem_sortT _ _).mp ht)).1
+    · exact ⟨g.handed, g.disc, g.send, fun t ht => g.buf t (List.mem_filter.mp ht).1⟩
+
 theorem tick_pres (s : St) (ns : Nat) : Pres keep s (tick keep s ns) ∧ frame (tick keep s ns) = frame s := by
   unfold tick
   by_cases hs : s.stopped = true
   · rw [if_pos hs]; exact ⟨⟨fun x h => h, fun g => ⟨g.handed, g.disc, g.send, g.buf⟩⟩, rfl⟩
-  · rw [if_neg hs]
-    obtain ⟨sw1, sw2, f, _⟩ := decideTraces_sw keep
-      { s with now := s.now + ns, buf := s.buf.filter (fun t => !expired s.held (s.now + ns) t) }
-      (sortT (s.buf.filter (expired s.held (s.now + ns))))
-    refine ⟨⟨?_, ?_⟩, f⟩
-    · intro x h
-      unfold Somewhere at h
-      rcases h with h | h | ⟨t, ht, hx⟩ | h
-      · exact sw1 x (Or.inl h)
-      · exact sw1 x (Or.inr (Or.inl h))
-      · by_cases he : expired s.held (s.now + ns) t = true
-        · exact sw2 t ((mem_sortT _ _).mpr (List.mem_filter.mpr ⟨ht, he⟩)) x hx
-        · exact sw1 x (Or.inr (Or.inr (Or.inl ⟨t, List.mem_filter.mpr ⟨ht, by simpa using he⟩, hx⟩)))
-      · exact sw1 x (Or.inr (Or.inr (Or.inr h)))
-    · intro g
-      apply decideTraces_good
-      · intro t ht
-        exact g.buf t (List.mem_filter.mp ((mem_sortT _ _).mp ht)).1
-      · exact ⟨g.handed, g.disc, g.send, fun t ht => g.buf t (List.mem_filter.mp ht).1⟩
+  · rw [if_neg hs]; exact decideWhere_pres keep s _ _
+
+theorem tickUpTo_pres (s : St) (ns : Nat) :
+    Pres keep s (tickUpTo keep s ns) ∧ frame (tickUpTo keep s ns) = frame s := by
+  unfold tickUpTo; exact decideWhere_pres keep s _ _
 
 theorem frame_qIn {a b : St} (h : frame a = frame b) : a.qIn = b.qIn := congrArg (·.1) h
 theorem frame_qPeer {a b : St} (h : frame a = frame b) : a.qPeer = b.qPeer := congrArg (·.2.1) h
@@ -606,6 +613,7 @@ theorem step_inv (s : St) (o : Op) (hi : Inv c keep s) : Inv c keep (step c keep
     | ev sid dest => exact inv_core c keep (s := s) rfl hi
     | txtick ns => exact inv_core c keep (s := s) rfl hi
     | stop => simp only [step]; rw [if_pos hs]; exact hi
+    | tickstop ns => simp only [step]; rw [if_pos hs]; exact inv_core c keep (s := s) rfl hi
     | txstop => exact inv_core c keep (s := s) rfl hi
   · have hs' : s.stopped = false := by simpa using hs
     cases o with
@@ -656,6 +664,15 @@ theorem step_inv (s : St) (o : Op) (hi : Inv c keep s) : Inv c keep (step c keep
       refine ⟨?_, g, fun _ => ⟨i, q, t, fun hf => (fx hf).1⟩, fun hf => ?_⟩
       · intro x hx; rw [a] at hx; exact sw x (hi.acc x hx)
       · rw [(fx hf).2]; exact hi.lost hf
+    | tickstop ns =>
+      simp only [step]
+      rw [if_neg hs]
+      obtain ⟨p, f⟩ := tickUpTo_pres keep s ns
+      have hi1 : Inv c keep (tickUpTo keep s ns) := inv_pres c keep hi hs' p f
+      obtain ⟨sw, g, a, i, q, t, st, fx⟩ := stopBody_spec c keep (tickUpTo keep s ns) hi1.good
+      refine ⟨?_, g, fun _ => ⟨i, q, t, fun hf => (fx hf).1⟩, fun hf => ?_⟩
+      · intro x hx; rw [a] at hx; exact sw x (hi1.acc x hx)
+      · rw [(fx hf).2]; exact hi1.lost hf
     | txstop => exact inv_core c keep (s := s) rfl hi
 
 theorem run_append (ops ops' : List Op) :
@@ -737,6 +754,10 @@ theorem step_tx (hT : ∀ t ns, P t → P (t.tick c ns)) (hS : ∀ t, P t → P 
     simp only [step]; split
     · exact h
     · exact stopBody_tx c keep P hE s h
+  | tickstop ns =>
+    simp only [step]; split
+    · exact h
+    · exact stopBody_tx c keep P hE _ h
   | txstop => exact hS _ h
 
 theorem fold_tx (hT : ∀ t ns, P t → P (t.tick c ns)) (hS : ∀ t, P t → P t.stop) (ops : List Op) :
@@ -793,15 +814,15 @@ theorem decided_of_clean {c : Cfg} {keep : Nat → Bool} {s : St} (hi : Inv c ke
 section stopparts
 variable (c : Cfg) (keep : Nat → Bool)
 
-theorem nostop_fold (ops : List Op) (hns : Op.stop ∉ ops) : ∀ s : St, s.stopped = false → s.lost = [] →
+theorem nostop_fold (ops : List Op) (hns : ∀ o ∈ ops, o.isStop = false) : ∀ s : St, s.stopped = false → s.lost = [] →
     (ops.foldl (fun s o => (step c keep s o).1) s).stopped = false ∧
     (ops.foldl (fun s o => (step c keep s o).1) s).lost = [] := by
   induction ops with
   | nil => intro s h1 h2; exact ⟨h1, h2⟩
   | cons o l ih =>
     intro s h1 h2
-    have hne : o ≠ .stop := fun h => hns (by simp [h])
-    have hl : Op.stop ∉ l := fun h => hns (by simp [h])
+    have hne : o.isStop = false := hns o (by simp)
+    have hl : ∀ o' ∈ l, o'.isStop = false := fun o' h => hns o' (by simp [h])
     have hs : s.stopped ≠ true := by simp [h1]
     apply ih hl
     · cases o with
@@ -827,7 +848,8 @@ theorem nostop_fold (ops : List Op) (hns : Op.stop ∉ ops) : ∀ s : St, s.stop
           rw [hh]; exact h1
       | ev sid dest => exact h1
       | txtick ns => exact h1
-      | stop => exact absurd rfl hne
+      | stop => simp [Op.isStop] at hne
+      | tickstop ns => simp [Op.isStop] at hne
       | txstop => exact h1
     · cases o with
       | span dt w peer sp =>
@@ -852,7 +874,8 @@ theorem nostop_fold (ops : List Op) (hns : Op.stop ∉ ops) : ∀ s : St, s.stop
           rw [hh]; exact h2
       | ev sid dest => exact h2
       | txtick ns => exact h2
-      | stop => exact absurd rfl hne
+      | stop => simp [Op.isStop] at hne
+      | tickstop ns => simp [Op.isStop] at hne
       | txstop => exact h2
 
 theorem stopBody_clean (s : St) (g : Good keep s) (hf : c.fixed = false) (hb : s.buf = []) (hq : s.qIn = [])
@@ -955,5 +978,68 @@ theorem urun_exits (choices : List Bool) : ∀ s : USt, s.cancelled = true → m
       show (urun rest ((ustep ch s).getD s)).loc = .exited
       rw [hs]
       exact ih s' hc' (by simp at h ⊢; omega)
+
+/-! ## `Stop`'s coded order and the producers of `tracesToSend` -/
+
+/-- `tracesToSend` is closed only after `workersWG.Wait()` has returned, and then no worker is left -/
+structure PInv (s : PSt) : Prop where
+  ok : s.violated = false
+  gone : 2 ≤ s.pc → s.live = []
+  closed : s.outClosed = true → 2 ≤ s.pc
+
+theorem pinv_step (s : PSt) (e : PEv) (h : PInv s) : PInv (pstep codedOrder s e) := by
+  cases e with
+  | pass w k =>
+    simp only [pstep]; split
+    · exact ⟨h.ok, h.gone, h.closed⟩
+    · exact h
+  | work w =>
+    simp only [pstep]
+    by_cases hw : w ∈ s.live
+    · rw [if_pos hw]
+      have hpc : ¬ 2 ≤ s.pc := fun h2 => by rw [h.gone h2] at hw; cases hw
+      have hoc : s.outClosed = false := by
+        cases ho : s.outClosed with
+        | false => rfl
+        | true => exact absurd (h.closed ho) hpc
+      split
+      · exact ⟨by simp [h.ok, hoc], fun h2 => absurd h2 hpc, fun ho => by simp [hoc] at ho⟩
+      · split
+        · exact ⟨h.ok, fun h2 => absurd h2 hpc, fun ho => by simp [hoc] at ho⟩
+        · exact h
+    · rw [if_neg hw]; exact h
+  | stop =>
+    obtain ⟨pc, live, pend, ic, oc, v⟩ := s
+    obtain ⟨hok, hgone, hclosed⟩ := h
+    simp only at hok hgone hclosed
+    match pc with
+    | 0 =>
+      simp only [pstep, codedOrder]
+      refine ⟨hok, fun h2 => by simp at h2, fun ho => ?_⟩
+      have := hclosed ho; simp at this
+    | 1 =>
+      simp only [pstep, codedOrder]
+      by_cases hl : live = []
+      · simp only [hl, if_true]
+        exact ⟨hok, fun _ => rfl, fun _ => by simp⟩
+      · simp only [hl, if_false]
+        exact ⟨hok, hgone, hclosed⟩
+    | 2 =>
+      simp only [pstep, codedOrder]
+      exact ⟨hok, fun _ => hgone (by simp), fun _ => by simp⟩
+    | 3 =>
+      simp only [pstep, codedOrder]
+      exact ⟨hok, fun _ => hgone (by simp), fun _ => by simp⟩
+    | n + 4 =>
+      simp only [pstep, codedOrder]
+      exact ⟨hok, hgone, hclosed⟩
+
+theorem pinv_run (workers : List Nat) (evs : List PEv) : PInv (prun codedOrder workers evs) := by
+  unfold prun
+  suffices ∀ s, PInv s → PInv (evs.foldl (pstep codedOrder) s) from
+    this _ ⟨rfl, fun h => by simp at h, fun h => by simp at h⟩
+  induction evs with
+  | nil => intro s h; exact h
+  | cons e l ih => intro s h; exact ih _ (pinv_step s e h)
 
 end Refinery.Lemmas.Shutdown
